@@ -2,7 +2,7 @@
    the model is Results/Model.v, proofs are in Results/Proofs*.v and Results/Main.v.
    Terms are IRI s | BNode s | Lit lex dt lang over strings of code points; the Python
    constructor Literal(lex, dt, lang) is taken to keep that triple (its normalisation is C09). *)
-From RV Require Import Results.Model Results.Proofs Results.ProofsXml Results.ProofsTsv Results.Main.
+From RV Require Import Results.Model Results.Proofs Results.ProofsXml Results.ProofsTsv Results.ProofsTsvDoc Results.Main.
 Local Open Scope N_scope.
 
 (* JSON: parseJsonTerm inverts termToJSON on every term *)
@@ -38,8 +38,9 @@ Theorem C16_xml_attr : forall s, forallb is_xml_char s = true -> xml_read_attr (
 Proof. exact xml_read_attr_ok. Qed.
 Print Assumptions C16_xml_attr.
 
-(* XML: outside the trigger regions (non-Chars F11b, CR in content F11c, empty IRI F11d, literals
-   whose Python value is falsy F11g) the result comes back as specified *)
+(* XML: outside the trigger regions (non-Chars F11b, CR in content F11c, a literal whose datatype is
+   the empty IRI F11d) the result comes back as specified - literals with a falsy Python value and the
+   empty IRI included, since the repairs of F11g and of the first half of F11d *)
 Theorem C16_xml_result : forall c, wf c = true -> kf c = 0 -> c_fmt c = FXml -> spec_ok c (model_obs c) = true.
 Proof. exact xml_ok. Qed.
 Print Assumptions C16_xml_result.
@@ -66,12 +67,29 @@ Theorem C16_csv_cells : forall c, wf c = true -> c_fmt c = FCsv -> spec_ok c (mo
 Proof. exact csv_main. Qed.
 Print Assumptions C16_csv_cells.
 
-(* model and checker: JSON, XML and CSV.  PARTIAL: the TSV document level (line splitting, ROW,
-   zip) is covered by the correspondence runs and C16_tsv_terms only, not by this theorem *)
-Theorem C16_spec_ok_model_partial : forall c,
-  wf c = true -> kf c = 0 -> c_fmt c <> FTsv -> spec_ok c (model_obs c) = true.
-Proof. exact spec_ok_model_partial. Qed.
-Print Assumptions C16_spec_ok_model_partial.
+(* TSV, the whole document: the reader gives back the variables in order and one dictionary per
+   table row, in order - rows with nothing bound included (since the repair of F11a) - provided the
+   header survives strip() (F11h) and, on a byte source, no line-break character other than LF occurs
+   raw (F11e).  The hypotheses are those of well-formed cases outside the triggers. *)
+Theorem C16_tsv_rows : forall st bytes vars rows,
+  vars <> [] -> forallb varname_ok vars = true ->
+  py_isspace (last (render_header vars) 0) = false ->
+  (forall r, In r rows -> forall v, In v vars -> cell_ok st (cell v r)) ->
+  (forall r, In r rows -> forall t, In t (row_terms r) -> term_tsv_ok t = true) ->
+  bytes && existsb raw_break (render_doc st vars rows) = false ->
+  tsv_parse bytes (render_doc st vars rows)
+  = OSel vars (map (fun r => zip_row vars (map (fun v => cell v r) vars)) rows).
+Proof. exact tsv_doc_ok. Qed.
+Print Assumptions C16_tsv_rows.
+
+Theorem C16_tsv_result : forall c, wf c = true -> kf c = 0 -> c_fmt c = FTsv -> spec_ok c (model_obs c) = true.
+Proof. exact tsv_ok. Qed.
+Print Assumptions C16_tsv_result.
+
+(* model and checker, all four formats *)
+Theorem C16_spec_ok_model : forall c, wf c = true -> kf c = 0 -> spec_ok c (model_obs c) = true.
+Proof. exact spec_ok_model. Qed.
+Print Assumptions C16_spec_ok_model.
 
 (* Prop-level readings of the checker *)
 Theorem C16_spec_select_reading : forall c vs ps,
@@ -92,26 +110,31 @@ Theorem C16_spec_csv_reading : forall c o,
 Proof. exact spec_ok_csv_reading. Qed.
 Print Assumptions C16_spec_csv_reading.
 
-(* the findings: well-formed cases on which the faithful model violates the property *)
-Theorem C16_tsv_rows_refuted : exists c,
-  wf c = true /\ c_fmt c = FTsv /\ kf c = 1 /\ spec_ok c (model_obs c) = false.
-Proof. exists w_F11a. vm_compute. repeat split. Qed.
-Print Assumptions C16_tsv_rows_refuted.
+(* the row loop as it was before the repair of F11a (kept in the model as tsv_rows_prefix) drops the
+   row with nothing bound; the current one keeps it *)
+Theorem C16_tsv_rows_prefix_refuted :
+  tsv_rows_prefix [vx] (split_lines true [] (flat_map (fun r => render_row st0 [vx] r ++ [10]) (c_rows w_F11a)))
+  = Some [[(vx, iri_a)]; [(vx, iri_a)]]
+  /\ tsv_rows [vx] (split_lines true [] (flat_map (fun r => render_row st0 [vx] r ++ [10]) (c_rows w_F11a)))
+    = Some [[(vx, iri_a)]; []; [(vx, iri_a)]].
+Proof. exact tsv_rows_prefix_refuted. Qed.
+Print Assumptions C16_tsv_rows_prefix_refuted.
 
+(* the remaining findings: well-formed cases on which the faithful model violates the property *)
 Theorem C16_xml_refuted :
   (exists c, wf c = true /\ c_fmt c = FXml /\ kf c = 2 /\ spec_ok c (model_obs c) = false)
   /\ (exists c, wf c = true /\ c_fmt c = FXml /\ kf c = 3 /\ spec_ok c (model_obs c) = false)
-  /\ (exists c, wf c = true /\ c_fmt c = FXml /\ kf c = 4 /\ spec_ok c (model_obs c) = false)
-  /\ (exists c, wf c = true /\ c_fmt c = FXml /\ kf c = 7 /\ spec_ok c (model_obs c) = false).
+  /\ (exists c, wf c = true /\ c_fmt c = FXml /\ kf c = 4 /\ spec_ok c (model_obs c) = false).
 Proof.
-  split; [exists w_F11b|split; [exists w_F11c|split; [exists w_F11d|exists w_F11g]]]; vm_compute; repeat split.
+  split; [exists w_F11b|split; [exists w_F11c|exists w_F11d]]; vm_compute; repeat split.
 Qed.
 Print Assumptions C16_xml_refuted.
 
 Theorem C16_tsv_reader_refuted :
   (exists c, wf c = true /\ c_fmt c = FTsv /\ kf c = 5 /\ spec_ok c (model_obs c) = false)
-  /\ (exists c, wf c = true /\ c_fmt c = FTsv /\ kf c = 6 /\ spec_ok c (model_obs c) = false).
-Proof. split; [exists w_F11e|exists w_F11f]; vm_compute; repeat split. Qed.
+  /\ (exists c, wf c = true /\ c_fmt c = FTsv /\ kf c = 6 /\ spec_ok c (model_obs c) = false)
+  /\ (exists c, wf c = true /\ c_fmt c = FTsv /\ kf c = 1 /\ spec_ok c (model_obs c) = false).
+Proof. split; [exists w_F11e|split; [exists w_F11f|exists w_F11h]]; vm_compute; repeat split. Qed.
 Print Assumptions C16_tsv_reader_refuted.
 
 (* non-vacuity: a well-formed XML case outside every trigger region with specials, an unbound
@@ -119,12 +142,14 @@ Print Assumptions C16_tsv_reader_refuted.
 Example C16_nonvacuous :
   let t1 := Lit [97; 38; 60; 34; 39; 9; 10; 128512] None (Some [101; 110]) in
   let t2 := Lit [55] (Some xsd_integer) None in
+  let t0 := Lit [48] (Some xsd_integer) None in
   let c := {| c_fmt := FXml; c_ask := None; c_vars := [[120]; [121]];
-              c_rows := [[([120], Some t1)]; []; [([120], Some t2)]];
+              c_rows := [[([120], Some t1)]; []; [([120], Some t2)]; [([121], Some (IRI [])); ([120], Some t0)]];
               c_style := st0; c_bytes := true |} in
-  wf c = true /\ kf c = 0 /\ model_obs c = OSel [[120]; [121]] [[([120], t1)]; []; [([120], t2)]]
+  wf c = true /\ kf c = 0
+  /\ model_obs c = OSel [[120]; [121]] [[([120], t1)]; []; [([120], t2)]; [([121], IRI []); ([120], t0)]]
   /\ let c' := {| c_fmt := FTsv; c_ask := None; c_vars := [[120]; [121]];
-                  c_rows := [[([121], Some t1)]; [([120], Some t2); ([121], Some (BNode [98; 46; 99]))]];
+                  c_rows := [[([121], Some t1)]; []; [([120], Some t2); ([121], Some (BNode [98; 46; 99]))]];
                   c_style := {| st_sq := true; st_esc_all := true; st_bare := true; st_cross := false |};
                   c_bytes := true |} in
      wf c' = true /\ kf c' = 0 /\ spec_ok c' (model_obs c') = true.
